@@ -76,6 +76,7 @@ pub fn generate(out: &mut Out, prop: &str, thorough: bool, seed: u64) {
         }
         "C14" => {
             server::gen_c14(out, &mut rng, thorough);
+            server::gen_c14_noise_bursts(out, &mut rng, thorough);
             netgen::gen_c14_accept(out, &mut rng, thorough)
         }
         "C15" => {
@@ -98,26 +99,54 @@ pub fn generate(out: &mut Out, prop: &str, thorough: bool, seed: u64) {
     let n = if thorough { 40_000 } else { 6_000 };
     match prop {
         "C01" | "C02" | "C09" => {
+            out.metamorphic = true;
             universal::gen_cli_histories(out, &mut rng, n / 2);
             universal::gen_srv_histories(out, &mut rng, n / 2);
+            out.metamorphic = false;
         }
         "C15" | "C12" | "C20" | "C10" => {
             // these monitors read any client history
             out.monitored = true;
+            out.metamorphic = prop != "C15" && prop != "C10";
             universal::gen_cli_histories(out, &mut rng, n);
             out.monitored = false;
+            out.metamorphic = false;
         }
-        "C06" | "C13" | "C16" => universal::gen_cli_histories(out, &mut rng, n),
-        "C07" | "C14" => universal::gen_srv_histories(out, &mut rng, n),
+        "C06" | "C13" | "C16" => {
+            // judged by the history-independence monitor only (their own monitors read the
+            // scenarios their generators build)
+            out.metamorphic = true;
+            universal::gen_cli_histories(out, &mut rng, n);
+            out.metamorphic = false;
+        }
+        "C07" | "C14" => {
+            out.metamorphic = true;
+            universal::gen_srv_histories(out, &mut rng, n);
+            out.metamorphic = false;
+        }
         "C03" => {
             // C03's monitor is generic (no panic, termination, bounded buffers): it judges these too
             out.monitored = true;
+            out.metamorphic = true;
             universal::gen_cli_histories(out, &mut rng, n);
             universal::gen_srv_histories(out, &mut rng, n);
+            out.metamorphic = false;
             universal::gen_stream_histories(out, &mut rng, n);
             out.monitored = false;
         }
-        "C04" | "C05" | "C11" => universal::gen_stream_histories(out, &mut rng, 2 * n),
+        "C04" | "C05" | "C11" | "C08" => {
+            universal::gen_stream_histories(out, &mut rng, 2 * n);
+            // what the codecs do shows in whole calls, too: state kept between calls (a buffer
+            // that is not empty at encode time, a decoder that remembers a length)
+            out.metamorphic = true;
+            universal::gen_cli_histories(out, &mut rng, n / 2);
+            out.metamorphic = false;
+            if prop == "C08" {
+                out.metamorphic = true;
+                universal::gen_srv_histories(out, &mut rng, n / 2);
+                out.metamorphic = false;
+            }
+        }
         _ => {}
     }
 }
@@ -140,6 +169,13 @@ pub fn monitor_line(out: &mut Out, line: &str) {
 fn judge(out: &mut Out, l: &str, r: &str) {
     let (l, r) = (l.to_string(), r.to_string());
     let prop = out.prop.clone();
+    if out.metamorphic {
+        client::mon_history_independence(out, &l, &r);
+        server::mon_prefix_independence(out, &l, &r);
+        if !out.monitored {
+            return;
+        }
+    }
     match prop.as_str() {
         "C01" => {
             if client::is_second_send_line(&l) {
